@@ -89,6 +89,7 @@ OPTIONS = [
     ('min>max+offset', dict(max_iter=2, min_iter=3, offset=-1)),
     ('pre-nan+offset', dict(max_iter=3, failures='ignore', offset=1)),
     ('pre-nan', dict(max_iter=3, failures='ignore')),
+    ('pre-inf', dict(max_iter=3, failures='ignore')),
     ('raise', dict(max_iter=2)),
     ('pre-nan-after-solve', dict(max_iter=4, failures='ignore')),
 ]
@@ -144,8 +145,8 @@ def run_case(case, p=None, Model=None):
     pos = t + n if t < 0 else t
     m = fresh(Model, n)
     endo = list(Model.ENDOGENOUS)
-    if optname == 'pre-nan' and 0 <= pos < n:
-        m[endo[0]][pos] = np.nan
+    if optname in ('pre-nan', 'pre-inf') and 0 <= pos < n:
+        m[endo[0]][pos] = np.nan if optname == 'pre-nan' else (np.inf if pos % 2 else -np.inf)   # any non-finite value, not only NaN
         kw['errors'] = case.get('errors', 'raise')
     if optname == 'pre-nan+offset' and 0 <= pos + 1 < n:
         m[endo[0]][pos + 1] = np.nan  # the non-finite value sits in the period the offset copies FROM
@@ -165,7 +166,7 @@ def run_case(case, p=None, Model=None):
     out = []
     feasible = lags <= pos < n - leads
     offset = kw.get('offset', 0)
-    rejected_upfront = (optname.startswith('min>max')) or (offset and not (0 <= pos + offset < n)) or (optname in ('pre-nan', 'pre-nan-after-solve') and kw.get('errors') == 'raise')
+    rejected_upfront = (optname.startswith('min>max')) or (offset and not (0 <= pos + offset < n)) or (optname in ('pre-nan', 'pre-inf', 'pre-nan-after-solve') and kw.get('errors') == 'raise')
     if optname == 'pre-nan+offset':
         # rejected (pre-existing non-finite check value once the offset copy is made); the copied endogenous values at t are the only change allowed
         if not feasible_pos(lags, leads, pos, n) or not (0 <= pos + 1 < n):
@@ -302,7 +303,7 @@ def run_block(block, tier, seed):
         for n in range(L + 1, L + 4):
             for t in range(-n, n):
                 for optname, _ in OPTIONS:
-                    variants = [None] if optname != 'pre-nan' else ['raise', 'ignore']
+                    variants = [None] if optname not in ('pre-nan', 'pre-inf') else ['raise', 'ignore']
                     for ev in variants:
                         case = dict(kind='solve_t', script=p.script(), n=n, t=t, opt=optname)
                         if ev:
